@@ -1,4 +1,4 @@
-; requires: storagepay
+; requires: storagepay strings
 ; stored files (handler level): one table keyed by file_key(merkle, owner, start); that the two store indexes
 ; (by merkle / by owner) always hold the same entries is the accessor-level obligation of C17
 (declare-fun file_key (Str Str Int) Str)
@@ -34,3 +34,14 @@
   (and (>= (T_storage_MsgPostFile_FileSize m) 1) (>= (T_storage_MsgPostFile_MaxProofs m) 1)
        (<= (* (T_storage_MsgPostFile_FileSize m) (T_storage_MsgPostFile_MaxProofs m)) 9223372036854775807)))
 (declare-fun time_add_date (Int Int Int Int) Int)
+; store key of a proof record: prover/owner/hex(merkle)/start/ (types.ProofKey); injective on separator-free provers and owners
+(declare-fun proof_key (Str Str Str Int) Str)
+; first '/'-separated component of a proof key is the prover (provers are bech32 addresses, hence separator-free;
+; concrete-mode lemma: x/storage/types.proof_key_components)
+(assert (forall ((p Str) (m Str) (o Str) (s Int)) (! (= (split_at (proof_key p m o s) {str "/"} 0) p) :pattern ((proof_key p m o s)))))
+(assert (forall ((p Str) (m Str) (o Str) (s Int) (p2 Str) (m2 Str) (o2 Str) (s2 Int)) (! (=> (= (proof_key p m o s) (proof_key p2 m2 o2 s2)) (and (= p p2) (= m m2) (= o o2) (= s s2))) :pattern ((proof_key p m o s) (proof_key p2 m2 o2 s2)))))
+; C17: every listed key of a stored or in-memory file has a proof record that refers back to the file and carries
+; the prover that the key names
+(define-fun listed_has_record ((proofs (Array Str (Option T_storage_FileProof))) (f T_storage_UnifiedFile) (k Str)) Bool
+  (and ((_ is some_T_storage_FileProof) (select proofs k))
+       (= k (proof_key (T_storage_FileProof_Prover (val_T_storage_FileProof (select proofs k))) (T_storage_UnifiedFile_Merkle f) (T_storage_UnifiedFile_Owner f) (T_storage_UnifiedFile_Start f)))))
